@@ -18,6 +18,15 @@ class TLCError(Exception):
     pass
 
 
+def _errtext(out, err="", limit=2500):
+    """the informative part of a TLC output: from the first error marker on"""
+    for marker in ("***Parse Error***", "Semantic errors", "Error:", "Exception"):
+        k = out.find(marker)
+        if k >= 0:
+            return out[max(0, k - 200): k + limit] + "\n" + err[-800:]
+    return out[-limit:] + "\n" + err[-800:]
+
+
 def _java(args, env=None, timeout=None, heap="2g"):
     cmd = ["java", "-XX:+UseParallelGC", f"-Xmx{heap}", "-cp", TLA_CP, "tlc2.TLC"] + args
     e = dict(os.environ)
@@ -78,7 +87,7 @@ def model_check(module, cfg, workers=8, timeout=600, env=None, coverage=False, h
     if "Model checking completed. No error has been found." in out or (simulate and r["rc"] == 0):
         res["ok"] = True
     elif res["violated"] is None:
-        res["error"] = (out[-3000:] + "\n" + r["err"][-2000:])
+        res["error"] = _errtext(out, r["err"])
     return res
 
 
@@ -216,7 +225,7 @@ def validate(module, cfg, records, shards=8, timeout=900, tag=None, extra_env=No
         if missing:
             raise TLCError(
                 f"{module}: {len(missing)} traces without verdict in {p} (first: {missing[0]}):\n"
-                + r["out"][-4000:] + "\n" + r["err"][-1500:]
+                + _errtext(r["out"], r["err"])
             )
     stats = {"states": states, "distinct": distinct, "wall": time.time() - t0, "shards": shards, "rundir": rundir}
     if not keep:
